@@ -99,7 +99,9 @@ class BleController(AbstractController):
             discovery = BleDiscovery(self, device, data, advertisement_data)
             logger.debug("BLE device for %s found, fulfilling futures", data.id)
             for future in futures:
-                future.set_result(discovery)
+                # The waiter may have been cancelled or timed out but not yet cleaned up
+                if not future.done():
+                    future.set_result(discovery)
             futures.clear()
 
         if old_discovery:
